@@ -153,7 +153,7 @@ def time_grid(ctx, case):
             w = build_witness(wk, sk, signer, pre[choice], sf, tw=tw)
             for dt in (-1, 0, 1):
                 t = deadline + dt
-                for dn in (-1, 0, 1):
+                for dn in (-1, 0, 1, -(2 * THR + 1), -(THR + 3600)):     # the last two: clock ahead of the timestamp
                     now = t - (THR + dn)
                     env.Clock.now = now
                     n += 1
@@ -392,7 +392,7 @@ def blocks(tier, seed):
               '(creation time, timeout) decompositions x path x t=deadline-1..+1', nshards=min(len(dw), 64)),
         Block('custom_slack_threshold', [(k, thr) for k in KINDS for thr in (10, 61, 600, 0, -1)], threshold_case,
               'lock kind x verifier ts_threshold {10, 61, 600, 0, -1} x path x t=deadline-1..+1 x t-now around the threshold', nshards=30),
-        Block('time_grid', tg, time_grid, 'lock kind x signer x preimage choice x timeout {0,1,86400,-1,-86400} x t=deadline-1..+1 x t-now=59..61', nshards=len(tg)),
+        Block('time_grid', tg, time_grid, 'lock kind x signer x preimage choice x timeout {0,1,86400,-1,-86400} x t=deadline-1..+1 x t-now in {59, 60, 61, -61, -3600}', nshards=len(tg)),
         Block('preimage_lengths', pl, preimage_lengths, 'preimage lengths %s x right/wrong x signer; SHAKE digest sizes 1,2,8,15,16,17,20,31,32,33,64; before and at the deadline' %
               ('1..64'), nshards=min(len(pl), 128)),
         Block('ptlc_tweak_scalars', tweak_scalars(seed), ptlc_tweaks, 'tweak scalars {1, L-1, clamped, unclamped, 2^254+} x witness kinds x signers', nshards=5),
